@@ -484,6 +484,43 @@ func c19EmitPlatform(sb *strings.Builder) {
 		fmt.Fprintf(sb, "(%d, %d, %d, %d)", a, canon(math.Log(x)), canon(math.Log10(x)), canon(math.Log2(x)))
 	}
 	sb.WriteString("]\n\n")
+	c19EmitTrigProbes(sb, canon)
+}
+
+// Round 4c: `math.Sin/Cos/Tan/Asin/Acos/Atan/Exp2` (pure Go on amd64) at probe arguments, computed by the
+// toolchain: every branch of the reductions (each octant, the Cody-Waite path below 2^29 and Payne-Hanek at and
+// above it up to MaxFloat64, tan's `zz <= 1e-14`, satan's three ranges, asin's `x > 0.7`, exp2's rounding of k in
+// both directions, its subnormal results and its overflow bound) and the special values.
+// Props/C19.lean `trig_platform` evaluates the model (`goMathExact` by Go name) at the same arguments in the kernel.
+func c19EmitTrigProbes(sb *strings.Builder, canon func(float64) uint64) {
+	type fn struct {
+		name string
+		f    func(float64) float64
+		args []float64
+	}
+	negZero := math.Copysign(0, -1)
+	fns := []fn{
+		{"Sin", math.Sin, []float64{0.5, 1, 2.5, 4, 5.5, -2, 1 << 29, 1e22, math.MaxFloat64, negZero, math.Inf(1)}},
+		{"Cos", math.Cos, []float64{0.5, 1, 2.5, 4, 5.5, -1e22}},
+		{"Tan", math.Tan, []float64{0.5, 1, 2.5, 1e-9, 1e22, -2}},
+		{"Asin", math.Asin, []float64{0.5, 0.75, -0.3, 1, 1.5}},
+		{"Acos", math.Acos, []float64{0.5, 0.75, -1}},
+		{"Atan", math.Atan, []float64{0.5, 1, 3, -1e300, math.Inf(1)}},
+		{"Exp2", math.Exp2, []float64{0.5, -0.5, 10, -1074, -1073.5, 1023.5, 1024, 3.7, -1022.3}},
+	}
+	sb.WriteString("/-- (function of package math, argument bits, result bits) computed by the toolchain; NaN results canonical -/\n")
+	sb.WriteString("def trigProbes : List (String × Nat × Nat) := [")
+	first := true
+	for _, f := range fns {
+		for _, a := range f.args {
+			if !first {
+				sb.WriteString(", ")
+			}
+			first = false
+			fmt.Fprintf(sb, "(%q, %d, %d)", f.name, math.Float64bits(a), canon(f.f(a)))
+		}
+	}
+	sb.WriteString("]\n\n")
 }
 
 // docs/usage/math.md: the operator tables (every back-quoted span of the rows under `### Binary` /
